@@ -100,6 +100,66 @@ type Case struct {
 	// Par > 0: after the sequential pass the same queries are issued again from Par goroutines at
 	// the same time on the SAME tree (a tree is built once and queried by many workers)
 	Par int `json:",omitempty"`
+	// RecN > 0 (sub-check octree-large): Pos and Idx are not stored but built from the recipe: RecN
+	// elements on a jittered grid (or in RecClusters clusters), values from a linear congruential sequence
+	RecN        int    `json:",omitempty"`
+	RecSeed     uint64 `json:",omitempty"`
+	RecClusters int    `json:",omitempty"`
+}
+
+// largeCounts: automatic depth is round(log8(n)), so it changes at 23, 182, 1 449, 11 586 elements.
+var largeCounts = []int{181, 182, 255, 256, 257, 1448, 1449, 4095, 4096, 4097, 11585, 11586, 20000}
+
+func recipeSet(kind string, n int, seed uint64, clusters int) (pos []V3, idx []int) {
+	x := seed
+	next := func() float64 { // multiples of 1/64 in [0,1)
+		x = x*6364136223846793005 + 1442695040888963407
+		return float64(x>>58) / 64
+	}
+	side := int(math.Ceil(math.Cbrt(float64(n))))
+	centre := func(i int) V3 {
+		if clusters > 0 {
+			c := i % clusters
+			return V3{float64(c%3)*30 - 30 + next(), float64(c/3%3)*30 - 30 + next(), float64(c/9)*30 - 30 + next()}
+		}
+		return V3{float64(i%side) - float64(side)/2, float64(i/side%side) - float64(side)/2, float64(i/(side*side)) - float64(side)/2}
+	}
+	for i := 0; i < n; i++ {
+		c := centre(i)
+		switch kind {
+		case "point":
+			pos = append(pos, add(c, V3{next(), next(), next()}))
+			idx = append(idx, i)
+		case "tri":
+			for k := 0; k < 3; k++ {
+				pos = append(pos, add(c, V3{next(), next(), next()}))
+				idx = append(idx, 3*i+k)
+			}
+		default: // strip: n segments = n+1 points along a wandering line
+			if i == 0 {
+				pos = append(pos, c)
+				idx = append(idx, 0)
+			}
+			pos = append(pos, add(c, V3{next(), next(), next()}))
+			idx = append(idx, i+1)
+		}
+	}
+	return pos, idx
+}
+
+func genLargeCase(t *rapid.T) Case {
+	c := Case{Kind: rapid.SampledFrom([]string{"tri", "point", "strip"}).Draw(t, "kind"), Layout: "recipe",
+		RecN: rapid.SampledFrom(largeCounts).Draw(t, "n"), RecSeed: rapid.Uint64().Draw(t, "seed")}
+	if rapid.Bool().Draw(t, "clustered") {
+		c.RecClusters = rapid.IntRange(1, 27).Draw(t, "clusters")
+	}
+	c.Depth = rapid.SampledFrom([]int{-1, -1, -1, 0, 1, 3, 5, 6}).Draw(t, "depth")
+	if c.Depth >= 0 {
+		c.Attr = rapid.IntRange(0, 3).Draw(t, "attr") == 0
+	}
+	pos, idx := recipeSet(c.Kind, c.RecN, c.RecSeed, c.RecClusters)
+	c.Qs = rapid.SliceOfN(rapid.Custom(func(t *rapid.T) Query { return genQuery(t, c.Kind, pos, idx) }), 2, 6).Draw(t, "queries")
+	return c
 }
 
 const otherAttr = "Custom3"
@@ -684,6 +744,14 @@ func countName(n int) string {
 // ---------------------------------------------------------------- the octree oracle
 
 func runCase(c Case, o *vh.Obs) *vh.Failure {
+	if c.RecN > 0 {
+		if c.RecN > 70000 || c.RecClusters < 0 || c.RecClusters > 27 || len(c.Pos) != 0 {
+			o.Count("invalid-case-skipped", 1)
+			return nil
+		}
+		c.Pos, c.Idx = recipeSet(c.Kind, c.RecN, c.RecSeed, c.RecClusters)
+		o.Class(fmt.Sprintf("large/auto-depth-%d", trees.OctreeDepthFromCount(c.RecN)))
+	}
 	if !validSet(c.Kind, c.Pos, c.Idx) || c.Depth > 8 || len(c.Qs) == 0 {
 		o.Count("invalid-case-skipped", 1)
 		return nil
@@ -1340,5 +1408,6 @@ func runBVH(c BVHCase, o *vh.Obs) *vh.Failure {
 
 func TestC16(t *testing.T) {
 	vh.Drive(t, vh.Spec[Case]{Name: "octree", Quick: 400000, Thorough: 12000000, Gen: genCase, Run: runCase})
+	vh.Drive(t, vh.Spec[Case]{Name: "octree-large", Quick: 160, Thorough: 6000, Gen: genLargeCase, Run: runCase})
 	vh.Drive(t, vh.Spec[BVHCase]{Name: "bvh", Quick: 120000, Thorough: 3600000, Gen: genBVH, Run: runBVH})
 }
